@@ -31,6 +31,8 @@ pub struct Exec {
     pub run_dir: String,
     pub stop: bool,
     pub op_index: usize,
+    /// generation mode: only the reference engine is driven (scenario generation must not depend on /repo's behaviour)
+    pub model_only: bool,
 }
 
 /// primitive operations after expansion (what is actually applied)
@@ -96,6 +98,7 @@ impl Exec {
             run_dir: String::new(),
             stop: false,
             op_index: 0,
+            model_only: false,
         }
     }
 
@@ -250,6 +253,32 @@ impl Exec {
 
     /// Apply one primitive to real object(s) and model(s), then run the monitors.
     fn apply(&mut self, p: &Prim) -> Result<(), Violation> {
+        if self.model_only {
+            let pre = std::mem::take(&mut self.prev);
+            let mut created: Option<Result<usize, ()>> = None;
+            for (a, mm) in self.models.iter_mut().enumerate() {
+                if let Some(x) = apply_model(mm, a, p) {
+                    created = Some(x);
+                }
+            }
+            if let Prim::Trading(on) = p {
+                self.trading = *on;
+            }
+            if let (Prim::Create { a, vol, price, .. }, Some(Ok(id))) = (p, created) {
+                self.ids[*a].push(id);
+                self.is_mkt[*a].push(price.is_none());
+                self.vol_modified[*a].push(false);
+                self.budget[*a] += *vol as u64;
+            }
+            if let Prim::Modify { a, id, vol: Some(v), .. } = p {
+                if pre[*a].orders.get(*id).map(|o| o.status) == Some(ACTIVE) {
+                    self.budget[*a] += *v as u64;
+                }
+            }
+            let levels = self.cfg.levels;
+            self.prev = self.models.iter().map(|m| m.obs(levels, false)).collect();
+            return Ok(());
+        }
         let cfg = self.cfg.clone();
         let pre = std::mem::take(&mut self.prev);
         let pre_trading = self.trading;
@@ -338,42 +367,79 @@ impl Exec {
             }
         }
         // ---- monitors ----
+        // tie classification (C05): does the exact twin of the pinned side.rs maps explain the real object?
+        let coll_now = !self.coll.is_empty() && {
+            let with_mid = has(&cfg, mon::MID);
+            let levels = self.real.levels();
+            (0..cfg.assets).all(|a| self.coll[a].poisoned.is_none() && self.coll[a].obs(levels, with_mid).diff(&post[a]).is_none())
+        };
+        if let Err(v) = self.run_monitors(&cfg, p, &pre, &post, pre_trading, &create_res, &model_create) {
+            let any_collision = self.models.iter().any(|mm| mm.collisions > 0);
+            self.prev = post.clone();
+            if has(&cfg, mon::TIE_CLASSIFY) && any_collision && self.coll_ok && coll_now && v.class != "tie-key-collision" {
+                return Err(self
+                    .viol("tie-key-collision", &v.field, v.expected.clone(), v.actual.clone())
+                    .site("side.rs::insert_order")
+                    .detail(format!("raised as {} by a monitor; orders sharing (side, price, timestamp) collide in the priority map and the real object equals the key-collision twin exactly", v.class)));
+            }
+            return Err(v);
+        }
+        // stats
+        for o in &post {
+            self.stats.state_digests.push(o.state_digest());
+        }
+        self.probe_points(p, &pre, &post);
+        self.prev = post;
+        Ok(())
+    }
+
+    #[allow(clippy::too_many_arguments)]
+    fn run_monitors(
+        &mut self,
+        cfg: &W1Cfg,
+        p: &Prim,
+        pre: &[BookObs],
+        post: &[BookObs],
+        pre_trading: bool,
+        create_res: &Option<Result<(usize, usize), String>>,
+        model_create: &Option<Result<usize, ()>>,
+    ) -> Result<(), Violation> {
         let ctx = m::Ctx {
             prop: &self.prop,
             op_index: self.op_index,
-            cfg: &cfg,
+            cfg,
             prim: p,
-            pre: &pre,
-            post: &post,
+            pre,
+            post,
             pre_trading,
             trading: self.trading,
             ever_disabled: self.ever_disabled,
-            create_res: &create_res,
+            create_res,
             is_mkt: &self.is_mkt,
             vol_modified: &self.vol_modified,
         };
-        if has(&cfg, mon::GRID) {
+        if has(cfg, mon::GRID) {
             m::grid(&ctx)?;
         }
-        if has(&cfg, mon::RECOMPUTE) {
+        if has(cfg, mon::RECOMPUTE) {
             m::recompute(&ctx)?;
         }
-        if has(&cfg, mon::LEDGER) {
+        if has(cfg, mon::LEDGER) {
             m::ledger(&ctx, &mut self.since_reset)?;
         }
-        if has(&cfg, mon::LIFECYCLE) {
+        if has(cfg, mon::LIFECYCLE) {
             m::lifecycle(&ctx)?;
         }
-        if has(&cfg, mon::NOOP) {
+        if has(cfg, mon::NOOP) {
             m::noop(&ctx)?;
         }
-        if has(&cfg, mon::MODIFY_INV) {
+        if has(cfg, mon::MODIFY_INV) {
             m::modify_inv(&ctx)?;
         }
-        if has(&cfg, mon::HALT) {
+        if has(cfg, mon::HALT) {
             m::halt(&ctx)?;
         }
-        if has(&cfg, mon::TWIN) {
+        if has(cfg, mon::TWIN) {
             for k in 0..self.twins.len() {
                 let tw = match self.observe(self.twins[k].as_ref()) {
                     Ok(o) => o,
@@ -389,18 +455,12 @@ impl Exec {
                 }
             }
         }
-        if has(&cfg, mon::SHADOW) {
-            self.check_shadows(p, &pre, &post)?;
+        if has(cfg, mon::SHADOW) {
+            self.check_shadows(p, pre, post)?;
         }
-        if has(&cfg, mon::MODEL) || has(&cfg, mon::TIE_CLASSIFY) {
-            self.check_model(&post, &create_res, &model_create)?;
+        if has(cfg, mon::MODEL) || has(cfg, mon::TIE_CLASSIFY) {
+            self.check_model(post, create_res, model_create)?;
         }
-        // stats
-        for o in &post {
-            self.stats.state_digests.push(o.state_digest());
-        }
-        self.probe_points(p, &pre, &post);
-        self.prev = post;
         Ok(())
     }
 
@@ -598,6 +658,9 @@ impl Exec {
     // -------------------------------------------------------------------------------------------
 
     fn snapshot(&mut self, how: u8, into_levels: usize, keep: bool, truncate: bool) -> Result<(), Violation> {
+        if self.model_only {
+            return Ok(());
+        }
         let cfg = self.cfg.clone();
         let valid_l = if cfg.market { MARKET_LEVELS.contains(&into_levels) } else { BOOK_LEVELS.contains(&into_levels) };
         if !valid_l {
@@ -665,15 +728,16 @@ impl Exec {
         if via_file {
             let _ = std::fs::remove_file(&path);
         }
-        for set in [&mut self.models, &mut self.coll] {
-            for mm in set.iter_mut() {
-                mm.reload();
-            }
-        }
         if keep && self.twins.len() < MAX_TWINS {
             self.twins.push(restored);
             self.stats.probe("twin_kept");
         } else {
+            // the models follow the object under test: its indexes were just rebuilt from the order list
+            for set in [&mut self.models, &mut self.coll] {
+                for mm in set.iter_mut() {
+                    mm.reload();
+                }
+            }
             // crash-restart: only the durable state survives
             self.real = restored;
             self.prev = ro;
